@@ -17,6 +17,9 @@ def budget(tier):
 
 def gen(rng, index, tier):
     raw, meta = lib.gen_dataset(rng, nmax=7 if tier == "quick" else 10, mmax=5, big=0.03, big_nmax=130)
+    if tier == "thorough" and rng.random() < 0.0001:
+        # a handful of instances of several hundred elements (thresholds such as 256, 512, 1000 in a "fast path")
+        raw, meta = lib.gen_dataset(rng, n_exact=rng.choice([260, 300]), mmax=6)
     n = len(lib.dataset_elems(raw))
     return {"dataset": raw, "scheme": lib.gen_scheme(rng, max_pairs=len(raw) * n * n + 1), "meta": meta}
 
